@@ -103,7 +103,7 @@ class UnorderedConverter(XMLSchemaConverter):
                 ns_name = self.unmap_qname(name)
                 xsd_child = xsd_element.match_child(ns_name)
                 if xsd_child is not None:
-                    if xsd_child.type and xsd_child.type.is_list():
+                    if xsd_child.type and xsd_child.type.is_list() and None not in value:
                         content_lu[ns_name] = [value]
                     else:
                         content_lu[ns_name] = value
